@@ -9,6 +9,7 @@
   theorems at the end are about exactly what is compared with the Go code.
 -/
 import WR.C02.Lemmas
+import WR.C02.Progress
 import WR.C02.Geo
 namespace WR.Props.C02
 open WR.C02
@@ -85,6 +86,58 @@ theorem paginate_count (P : PageInfo → Oracle γ × γ) (ltr : Bool) (root : B
 /-- blank pages carry no content -/
 theorem blank_page_empty (p : Page) (h : p.frag = none) : p.leaves = [] := by
   simp [Page.leaves, h]
+
+/-! ## progress of the page loop (also C01 `paginate_progress`) -/
+
+/-- With `pageIsEmpty` a box is never cancelled — for every box tree, resume position and oracle.  The
+    root is laid out with `pageIsEmpty`, so the branch of `makePage` that panics with
+    "expected non nil box for the root element" is unreachable for class F, however small the page. -/
+theorem root_never_aborts (O : Oracle γ) (b : Box) (s : RS) (g : γ) (nb : NextPage) :
+    layBox O b s g true ≠ .abort nb :=
+  layBox_pie_ok O b s g nb
+
+/-- A blank page is never followed by another blank page (every fuel, start index, loop state). -/
+theorem no_two_blank_pages (P : PageInfo → Oracle γ × γ) (ltr : Bool) (root : Box) (fuel index : Nat) (s : PState) :
+    NoBB (pagesLoop P ltr root fuel index s).pages :=
+  pagesLoop_noBB P ltr root fuel index s
+
+/-- The page loop only ever stops early because the fuel ran out: with one more unit of fuel than pages
+    produced the loop has ended (`done`), or the pages produced are exactly `fuel` many. -/
+theorem loop_stops_only_on_fuel (P : PageInfo → Oracle γ × γ) (ltr : Bool) (root : Box) :
+    ∀ (fuel index : Nat) (s : PState),
+      (pagesLoop P ltr root fuel index s).done = true ∨ (pagesLoop P ltr root fuel index s).pages.length = fuel
+  | 0, _, _ => by simp [pagesLoop]
+  | fuel+1, index, s => by
+    rw [pagesLoop]
+    dsimp only
+    split
+    · rcases loop_stops_only_on_fuel P ltr root fuel (index+1) { s with right := !s.right } with h | h
+      · exact Or.inl h
+      · exact Or.inr (by simp [h])
+    · cases hl : layBox (P (pageInfo ltr index s)).1 root s.resume (P (pageInfo ltr index s)).2 true with
+      | abort nb => exact absurd hl (root_never_aborts _ root s.resume _ nb)
+      | ok br =>
+        dsimp only
+        cases hr : br.resume with
+        | none => exact Or.inl rfl
+        | some r' =>
+          dsimp only
+          rcases loop_stops_only_on_fuel P ltr root fuel (index+1) { resume := r', nb := br.nb, right := !s.right } with h | h
+          · exact Or.inl h
+          · exact Or.inr (by simp [h])
+
+/- FULL STATEMENT (not proved):
+
+   theorem paginate_progress (P) (ltr) (root : Box) (hwf : every paragraph has a line, every block a child,
+       orphans ≥ 1) : (paginate P ltr root (2 * root.leaves.length + 1)).done = true
+
+   Proved above: the root is never cancelled (`root_never_aborts`), a blank page is never followed by a
+   blank page (`no_two_blank_pages`), the loop stops early only when the fuel runs out
+   (`loop_stops_only_on_fuel`), and every page's fragment is a cut of the document
+   (`layBox_ok`, so the resume position never moves backwards: `pages_prefix`).
+   Missing: "with `pageIsEmpty` a well-formed box resumed at a proper position places at least one line
+   and returns a proper position" (needs the same for the earlier-break candidates).  The correspondence
+   run evaluates the bound on every generated document (fuel 2·(#lines+#blocks)+2 always suffices there). -/
 
 /-! ## the instance the driver executes -/
 
